@@ -43,9 +43,9 @@ def check(ctx):
     vlib.prove(ctx, ["KrillModel.Props.C18", "KrillModel.Props.C07", "KrillModel.Props.C09"])
     found = False
     if vlib.build_harness(ctx, ["conc"]):
-        n = 8 if ctx.tier == "quick" else 240
+        n = 6 if ctx.tier == "quick" else 240
         # races are probabilistic: every corpus scenario is repeated
-        reps = 4 if ctx.tier == "quick" else 40
+        reps = 3 if ctx.tier == "quick" else 40
         traces = corpus_repeated(ctx, reps)
         traces += vlib.parallel_traces(ctx, "conc", n, 0, procs=12)
         found = vlib.judge_traces(ctx, "conc", "conc", traces, sig)
